@@ -53,6 +53,7 @@ type FuncSpec struct {
 	Replay    ast.Expr          // call to a replay builder (verif-tagged Go function) with entry-state arguments
 	ReplayText string
 	ReplayPost ast.Expr // like Replay, arguments evaluated in the post state (for post obligations)
+	Captures  []Clause // closures: facts about the captured variables, checked where the closure is created and assumed in its body (captured variables must be assigned once)
 	Implementers []string // iface blocks: runtime types whose method is verified against this contract
 	ImplOf    *FuncSpec   // synthesized spec of an implementer check: the interface contract it is checked against
 	ImplType  string
@@ -103,7 +104,10 @@ type Specs struct {
 	GhostPkg  map[string]string // package (directory name) whose scope resolves the ghost variable's type
 	GhostLocal map[string]bool
 	Macros     map[string]*Macro
+	Opaques    map[string]*Macro // predicates over immutable state, folded into an uninterpreted symbol
 	SpecFns    map[string]*Macro // recursive integer specification functions (unfolded once per occurrence)
+	OwnedMaps  map[string]bool // map classes ("map:<type>") whose contents are framed strictly: 'modifies *' does not cover them
+	ImmutableElems map[string][]string // slice element classes ("[]T") written only in arrays fresh to the writer -> properties
 }
 
 // Macro: a named specification predicate/term, `macro name(a, b) = expr` (call by value).
@@ -262,7 +266,7 @@ func mkClause(text string) (Clause, error) {
 
 // LoadSpecs reads //@ blocks from every zz_verif*.go file under the repo and *.spec under extern dir.
 func LoadSpecs(repo string, externDir string) (*Specs, error) {
-	sp := &Specs{Funcs: map[string]*FuncSpec{}, Loops: map[string]*LoopSpec{}, Types: map[string]*TypeSpec{}, Ifaces: map[string]*FuncSpec{}, GhostVars: map[string]string{}, GhostPkg: map[string]string{}, GhostLocal: map[string]bool{}, Macros: map[string]*Macro{}, SpecFns: map[string]*Macro{}}
+	sp := &Specs{Funcs: map[string]*FuncSpec{}, Loops: map[string]*LoopSpec{}, Types: map[string]*TypeSpec{}, Ifaces: map[string]*FuncSpec{}, GhostVars: map[string]string{}, GhostPkg: map[string]string{}, GhostLocal: map[string]bool{}, Macros: map[string]*Macro{}, SpecFns: map[string]*Macro{}, Opaques: map[string]*Macro{}, ImmutableElems: map[string][]string{}, OwnedMaps: map[string]bool{}}
 	var files []string
 	for _, pk := range repoPkgs {
 		m, _ := filepath.Glob(filepath.Join(repo, pk, "zz_verif*.go"))
@@ -595,6 +599,20 @@ func (sp *Specs) parseFile(path string, extern bool) error {
 				return fail(fmt.Errorf("escapes outside func block"))
 			}
 			curF.Escapes = append(curF.Escapes, strings.Fields(strings.ReplaceAll(rest, ",", " "))...)
+		case "owned-map":
+			sp.OwnedMaps["map:"+strings.TrimSpace(rest)] = true
+		case "immutable-elems":
+			r2, props := splitProps(rest)
+			sp.ImmutableElems[strings.TrimSpace(r2)] = props
+		case "captures":
+			if curF == nil {
+				return fail(fmt.Errorf("captures outside func block"))
+			}
+			c, err := mkClause(rest)
+			if err != nil {
+				return fail(err)
+			}
+			curF.Captures = append(curF.Captures, c)
 		case "implementers":
 			if curF == nil || !curF.Iface {
 				return fail(fmt.Errorf("implementers outside iface block"))
@@ -604,7 +622,7 @@ func (sp *Specs) parseFile(path string, extern bool) error {
 					curF.Implementers = append(curF.Implementers, t)
 				}
 			}
-		case "macro", "specfn":
+		case "macro", "specfn", "opaque":
 			eq := indexTop(rest, "=")
 			lp := strings.Index(rest, "(")
 			rp := strings.Index(rest, ")")
@@ -623,6 +641,8 @@ func (sp *Specs) parseFile(path string, extern bool) error {
 			}
 			if word == "specfn" {
 				sp.SpecFns[strings.TrimSpace(rest[:lp])] = m
+			} else if word == "opaque" {
+				sp.Opaques[strings.TrimSpace(rest[:lp])] = m
 			} else {
 				sp.Macros[strings.TrimSpace(rest[:lp])] = m
 			}
